@@ -126,6 +126,8 @@ pub struct Model<'a> {
     pending_qos2: Vec<u16>,
     owed: VecDeque<Owed>,
     optional: VecDeque<Owed>,
+    /// acknowledgements that were owed when the broker answered with a fresh session
+    stale_acks: Vec<Owed>,
     /// acknowledgements written on the current transport that no completed flush has covered yet
     unflushed_acks: Vec<Owed>,
     expect_delivery: Option<usize>,
@@ -186,6 +188,7 @@ impl<'a> Model<'a> {
             pending_qos2: Vec::new(),
             owed: VecDeque::new(),
             optional: VecDeque::new(),
+            stale_acks: Vec::new(),
             unflushed_acks: Vec::new(),
             expect_delivery: None,
             handle_flight: Vec::new(),
@@ -317,9 +320,8 @@ impl<'a> Model<'a> {
                 self.epoch_first_op = self.ops_started;
                 self.ever_connected = true;
                 self.pending_qos2.clear();
-                self.owed.clear();
-                self.optional.clear();
-                self.unflushed_acks.clear();
+                // acknowledgements owed to the old broker session must not reach the new one (C05)
+                self.stale_acks = self.owed.drain(..).chain(self.optional.drain(..)).chain(self.unflushed_acks.drain(..)).collect();
                 self.trs[tr].connected = Some(false);
             }
             ConnRes::Reconnected => {
@@ -1084,6 +1086,13 @@ impl<'a> Model<'a> {
 
     fn on_client_ack(&mut self, tr: usize, ptype: u8, a: &rc::Ack) {
         let got_success = a.code() < 0x80;
+        let expected = self.owed.iter().chain(self.optional.iter()).any(|w| w.ptype == ptype && w.pid == a.pid);
+        if !expected {
+            if let Some(i) = self.stale_acks.iter().position(|w| w.ptype == ptype && w.pid == a.pid) {
+                self.stale_acks.remove(i);
+                self.bad("C05", format!("C05/discarded-packet-transmitted/{}", rc::type_name(ptype)), format!("transport {tr}: {} id {} answers a packet of the previous broker session; the broker reported a fresh session, so it had to be discarded", rc::type_name(ptype), a.pid));
+            }
+        }
         // prefer what is owed on this connection; acknowledgements left over from a dead transport
         // may be repeated (in order) or skipped
         if !self.owed.front().is_some_and(|w| w.ptype == ptype && w.pid == a.pid) {
